@@ -837,6 +837,11 @@ func (d *vfC16Dialer) NewStream(ctx context.Context, p peer.ID, _ ...protocol.ID
 	s.feed([]byte{1, 0}) // the client's DialBackResponse; the server reads one byte of it
 	return s, nil
 }
+func (d *vfC16Dialer) setCur(st *vfC16Stream) {
+	d.mu.Lock()
+	d.cur = st
+	d.mu.Unlock()
+}
 func (d *vfC16Dialer) takeEvents() []vfC16DialEv {
 	d.mu.Lock()
 	defer d.mu.Unlock()
@@ -1805,6 +1810,7 @@ func TestVerifC16Concurrent(t *testing.T) {
 			peers := []peer.ID{"vf-requester", "vf-other"}
 			open := map[peer.ID][]*vfC16Req{}
 			var hist []string
+			var ddServed []time.Time // ledger: requests that required dial data and were served with a dial back
 			cfg := map[string]any{"schedule": i, "MaxConc": cap, "RPM": pr.rpm, "DialDataRPM": pr.ddrpm}
 			bad := false
 			sweep := func() {
@@ -1846,6 +1852,17 @@ func TestVerifC16Concurrent(t *testing.T) {
 					sys.settle(q)
 					hist = append(hist, fmt.Sprintf("resume(%s,#%d,%d)", p, j, how))
 					kinds["resume"]++
+					for _, e := range sys.dialer.takeEvents() {
+						if e.Kind == "connect" && q.asked > 0 && !q.ddCounted {
+							q.ddCounted = true
+							now := time.Now()
+							ddServed = append(vfC16Trim(ddServed, now), now)
+							if d, _ := vfC16InWindow(ddServed, now); d > pr.ddrpm {
+								vfC16Add(res, vfh.Mismatch{Class: "server-window-dialdata", What: fmt.Sprintf("%d requests that required dial data served within one minute (overlapping requests), DialDataRPM %d", d, pr.ddrpm), Walk: -1, Step: k, Prefix: hist, Cfg: cfg})
+								bad = true
+							}
+						}
+					}
 					if !q.isDone() {
 						// an empty-handed request turned into one that waits for dial data: still parked
 						if msgs, _ := q.st.nextMsgs(); len(msgs) == 1 && msgs[0].GetDialDataRequest() != nil {
@@ -2071,6 +2088,7 @@ func (it *vfC16Inter) step(op vfh.Op) (cls, what string, exp, got any) {
 		case "other":
 			add(it.obs.other[it.sys.rnd.Intn(3)], vfC16Other) // ip forms only
 		}
+		it.sys.dialer.setCur(q.st)
 		if op.S("kind") == "bad" {
 			q.st.feed([]byte{5, 0xff, 0xff, 0xff, 0xff, 0xff})
 		} else {
@@ -2083,6 +2101,7 @@ func (it *vfC16Inter) step(op vfh.Op) (cls, what string, exp, got any) {
 		if q == nil || q.isDone() || q.asked == 0 {
 			return "L2:harness", "pay on a request that does not wait for dial data", nil, nil
 		}
+		it.sys.dialer.setCur(q.st)
 		it.sys.send(q, it.sys.split(q.asked-q.sent, 1+it.sys.rnd.Intn(2)))
 		it.sys.settle(q)
 		resp, cls, what, got = it.after(sl, q, false)
@@ -2129,6 +2148,7 @@ func (it *vfC16Inter) pursue() (string, string, any) {
 		if q == nil || q.isDone() {
 			continue
 		}
+		it.sys.dialer.setCur(q.st)
 		if q.asked > 0 && q.sent < q.asked {
 			it.sys.send(q, it.sys.split(q.asked-q.sent, 1))
 		} else {
